@@ -50,9 +50,24 @@ def run(argv, env=None, cwd=None, stdin_data=None, chunk=65536, signal_after_chu
                          env=env, cwd=cwd)
     state = dict(sent=False)
 
+    def handler_installed():
+        try:
+            with open("/proc/%d/status" % p.pid) as f:
+                for line in f:
+                    if line.startswith("SigCgt:"):
+                        return bool(int(line.split()[1], 16) >> (int(signum) - 1) & 1)
+        except Exception:
+            pass
+        return False
+
     def send_sig():
         if not state["sent"]:
             state["sent"] = True
+            # stop handling is in force once the tool has installed its handler: wait (bounded) for that logical instant, so that a signal
+            # in the first milliseconds of start-up (default disposition: any process dies) is not mistaken for a failure of the stop handling
+            t_end = time.time() + 5.0
+            while time.time() < t_end and p.poll() is None and not handler_installed():
+                time.sleep(0.002)
             o.signalled = True
             try:
                 p.send_signal(signum)
